@@ -10,9 +10,10 @@
 // replay through Model/Watch.v) and the observed history (for check_C42).
 //
 // Times are centiseconds since the endpoint was created. A history is
-// discarded (and counted) when a poll scan overlapped a Transition or an
-// edit (their order is then not observable) or when the process was starved
-// (a 10 ms sleeper overslept by more than 200 ms).
+// discarded (and counted) when the process was starved (a 10 ms sleeper
+// overslept by more than 400 ms). When a poll scan overlapped a Transition or
+// an edit the order of their effects is not observable: such a history is not
+// replayed through the model but its observations are still judged.
 package main
 
 import (
@@ -38,18 +39,21 @@ import (
 
 // Op is one driver step.
 type Op struct {
-	K       string `json:"k"` // sleep scan trans edit revert
+	K       string `json:"k"` // sleep scan trans bulk edit revert
 	Ms      int    `json:"ms,omitempty"`
 	Full    bool   `json:"full,omitempty"`
 	Kind    string `json:"kind,omitempty"` // trans: create replace remove; edit: write remove
 	Path    string `json:"p,omitempty"`
 	Content string `json:"c,omitempty"`
+	N       int    `json:"n,omitempty"` // bulk: number of files in the created directory
 }
 
 // Case is an initial root and a driver script.
 type Case struct {
 	Init map[string]string `json:"init"`
-	Ops  []Op              `json:"ops"`
+	// FullScan selects scan mode "full": acceleration is never available.
+	FullScan bool `json:"fullscan,omitempty"`
+	Ops      []Op `json:"ops"`
 }
 
 const (
@@ -71,6 +75,7 @@ type recorder struct {
 	busy      bool
 	ambiguous bool
 	pending   *tev // the Scan log line waiting for the driver's result
+	lastPoll  time.Time // when the polling loop last began a scan
 	obs       []string
 	bad       string
 }
@@ -92,6 +97,7 @@ func (r *recorder) Write(p []byte) (int, error) {
 	case strings.Contains(line, "Performing filesystem scan"):
 		r.add("HPollBegin")
 		r.pollOpen = true
+		r.lastPoll = time.Now()
 		if r.busy {
 			r.ambiguous = true
 		}
@@ -102,8 +108,16 @@ func (r *recorder) Write(p []byte) (int, error) {
 		r.add("HPollFail")
 		r.pollOpen = false
 	case strings.Contains(line, "No unignored modifications detected"):
+		if r.pollOpen { // scan mode full: success is not logged separately
+			r.add("HPollOk")
+			r.pollOpen = false
+		}
 		r.add("HPollCmp false")
 	case strings.Contains(line, "Modifications detected"):
+		if r.pollOpen {
+			r.add("HPollOk")
+			r.pollOpen = false
+		}
 		r.add("HPollCmp true")
 	case strings.Contains(line, "Performing accelerated scan with existing snapshot"):
 		r.pending = r.add("")
@@ -265,6 +279,9 @@ func runCase(c Case) (res result) {
 		ScanMode:             synchronization.ScanMode_ScanModeAccelerated,
 		StageMode:            synchronization.StageMode_StageModeMutagen,
 	}
+	if c.FullScan {
+		cfg.ScanMode = synchronization.ScanMode_ScanModeFull
+	}
 	rec.t0 = time.Now()
 	ep := lepx.NewEndpoint(logger, root, session, cfg, false)
 	sep := lepx.NewEndpoint(nil, src, session+"src", &synchronization.Configuration{
@@ -420,6 +437,64 @@ func runCase(c Case) (res result) {
 				tags = append(tags, "trans:nochange")
 				rec.end("HTrans []", fmt.Sprintf("XT %d false", t))
 			}
+		case "bulk":
+			// A transition that takes a while (a directory with many files),
+			// started just before the polling loop's next tick so that a poll
+			// scan runs while core.Transition is at work.
+			if !doScan(false) {
+				break
+			}
+			if lepx.At(lastSnap, o.Path) != nil {
+				continue
+			}
+			dir := &core.Entry{Kind: core.EntryKind_Directory, Contents: map[string]*core.Entry{}}
+			paths := make([]string, 0, o.N)
+			digests := make([][]byte, 0, o.N)
+			os.MkdirAll(filepath.Join(src, o.Path), 0o755)
+			for i := 0; i < o.N; i++ {
+				name := fmt.Sprintf("f%04d", i)
+				content := []byte(fmt.Sprintf("%s %d", o.Content, i))
+				d := lepx.Sha1(content)
+				dir.Contents[name] = &core.Entry{Kind: core.EntryKind_File, Digest: d}
+				paths = append(paths, o.Path+"/"+name)
+				digests = append(digests, d)
+				os.WriteFile(filepath.Join(src, o.Path, name), content, 0o644)
+			}
+			fp, sigs, receiver, err := ep.Stage(paths, digests)
+			if err != nil {
+				panic("Stage: " + err.Error())
+			}
+			if receiver != nil {
+				if err := sep.Supply(fp, sigs, receiver); err != nil {
+					panic("Supply: " + err.Error())
+				}
+			}
+			rec.mu.Lock()
+			last := rec.lastPoll
+			rec.mu.Unlock()
+			if !last.IsZero() {
+				next := last.Add(time.Second)
+				for next.Before(time.Now().Add(15 * time.Millisecond)) {
+					next = next.Add(time.Second)
+				}
+				time.Sleep(time.Until(next.Add(-time.Duration(o.Ms) * time.Millisecond)))
+			}
+			rec.begin()
+			if _, _, _, err := ep.Transition(bg, []*core.Change{{Path: o.Path, New: dir}}); err != nil {
+				panic("Transition: " + err.Error())
+			}
+			t := rec.now()
+			id := idOf(diskKey(root))
+			if id != cur {
+				cur = id
+				lastUndo = nil
+				tags = append(tags, "bulk:changed")
+				rec.end(fmt.Sprintf("HTrans [%d]", id), fmt.Sprintf("XD %d %d false", t, id), fmt.Sprintf("XT %d true", t))
+			} else {
+				rec.end("HTrans []", fmt.Sprintf("XT %d false", t))
+			}
+			// what the controller does next: scan again
+			doScan(false)
 		case "edit", "revert":
 			path, kind, content := o.Path, o.Kind, o.Content
 			if o.K == "revert" {
@@ -474,16 +549,18 @@ func runCase(c Case) (res result) {
 		panic("harness: " + bad)
 	}
 	if ambiguous {
-		res.discard = "overlap"
-		return
+		tags = append(tags, "overlap:not-replayed")
 	}
-	if time.Duration(maxOver.Load()) > 200*time.Millisecond {
+	if time.Duration(maxOver.Load()) > 400*time.Millisecond {
 		res.discard = "starved"
 		return
 	}
 	// observations in chronological order: they were appended in real-time
 	// order by the driver and the Poll watcher under one mutex
-	res.coq = fmt.Sprintf("(%v, %d, (%d, %d, %d), %d,\n  %s,\n  %s)", fixed, c0, windowCs, warmCs, tend, slackCs,
+	if c.FullScan {
+		tags = append(tags, "scanmode:full")
+	}
+	res.coq = fmt.Sprintf("(%v, %v, %v, %d, (%d, %d, %d), %d,\n  %s,\n  %s)", fixed, !c.FullScan, !ambiguous, c0, windowCs, warmCs, tend, slackCs,
 		hx.List(trace), hx.List(obsCoq(obs)))
 	res.nt = sawCached && sawRevert
 	res.tags = tags
@@ -503,7 +580,7 @@ func obsCoq(obs []string) []string {
 var names = []string{"f", "g", "h"}
 
 func genCase(r interface{ Intn(int) int }) Case {
-	c := Case{Init: map[string]string{}}
+	c := Case{Init: map[string]string{}, FullScan: r.Intn(4) == 0}
 	for _, n := range names {
 		if r.Intn(3) == 0 {
 			c.Init[n] = fmt.Sprintf("init %s", n)
@@ -512,6 +589,7 @@ func genCase(r interface{ Intn(int) int }) Case {
 	c.Ops = append(c.Ops, Op{K: "sleep", Ms: 350 + r.Intn(500)})
 	n := 3 + r.Intn(5)
 	uniq := 0
+	bulked := false
 	trans := func() Op {
 		uniq++
 		return Op{K: "trans", Kind: []string{"create", "create", "replace", "remove"}[r.Intn(4)],
@@ -540,6 +618,13 @@ func genCase(r interface{ Intn(int) int }) Case {
 			}
 		case 7:
 			c.Ops = append(c.Ops, Op{K: "revert"})
+		case 8:
+			if !bulked && r.Intn(2) == 0 {
+				bulked = true
+				uniq++
+				c.Ops = append(c.Ops, Op{K: "bulk", Path: "bulk", N: 600 + r.Intn(900),
+					Content: fmt.Sprintf("bulk %d", uniq), Ms: 2 + r.Intn(25)})
+			}
 		default:
 		}
 		c.Ops = append(c.Ops, Op{K: "sleep", Ms: r.Intn(900)})
